@@ -56,8 +56,7 @@ THEOREMS = [
     "PV.C04.bareStar_iff",
     "PV.C04.checkSig_none_iff",
     "PV.C04.checkSig_kind",
-    "PV.C04.fstr_leading_equals_fails",
-    "PV.C04.fstr_leading_equals_partial",
+    "PV.C04.fstr_leading_equals_rejected",
     "PV.C04.nestGo_eq_matchGo_erased",
     "PV.C04.nestGo_iff_dyck_erased",
     "PV.C04.softkw_error_transparent_fails",
@@ -87,8 +86,9 @@ PARTIAL = [
     "exhaustively to length 5 and validated against CPython; one shape below Python is witnessed (1.else, C01's finding)",
     "string / f-string scanners: lex_string is characterised for single-quoted literals (lexStringBody_closed_iff), "
     "triple-quoted ones only by correspondence; parse_fstring / parse_formatted_value / parse_spec are modelled and tied "
-    "by exhaustive correspondence (all bodies of <=6 symbols) with theorems only for the finding witness "
-    "fstr_leading_equals_fails / _partial; f-string malformedness has no Lean Spec, the oracle uses CPython",
+    "by exhaustive correspondence (all bodies of <=6 symbols) with one theorem (fstr_leading_equals_rejected: a field "
+    "beginning with '=' is always rejected, the finding fixed by /repo d717a96); f-string malformedness in general has no "
+    "Lean Spec, the oracle uses CPython",
     "whole-parameter-list glue: checkSig_none_iff / checkSig_kind / bareStar_iff relate the three checks to the "
     "reference predicates on what the grammar assembles (ast::Arguments); that the assembly keeps source order within "
     "each group is sampled by correspondence, not proved",
@@ -118,8 +118,8 @@ LEVEL_TEXT = ("Machine-checked Lean 4 theorems, for inputs of every size, about 
 LEVEL_NOTE = ("Trusted: Lean kernel (axioms propext/Classical.choice/Quot.sound only); fidelity of the hand-written kernels as "
               "sampled by correspondence; the LALRPOP automaton (not modelled: order of reductions and the small token "
               "grammars are sampled); f64::from_str / BigInt::from_str_radix contracts; CPython 3.11.7 as reference; the "
-              "harness, driver and generators. Two known findings on the unchanged tree (f-string '=' followed by a "
-              "delimiter accepted; soft-keyword look-ahead masks errors on match/case lines).")
+              "harness, driver and generators. One known finding (soft-keyword look-ahead masks errors on match/case "
+              "lines); the f-string finding ('=' followed by a delimiter accepted) is fixed in /repo by d717a96.")
 RULE = ("request lines (abstract construct x syntactic context) sent to both the real parser and the Lean model; "
         "distinct = distinct request line; non-trivial = the construct breaks at least one catalogue rule")
 
@@ -744,11 +744,6 @@ def classify(req, impl_out, model_out, failure):
     if ws[0] == "site" and failure and ws[1] in SOFTKW_MASKABLE:
         if _softkw_masked(unhex(ws[4]), int(ws[2]) + 1, impl_out):
             return "softkw-lookahead-masks-error-on-match-case-line"
-    if ws[0] == "fstr" and impl_out == "ok" and failure:
-        body = unhex(ws[1]).decode()
-        # a self-documenting `=` followed (after blanks) by a delimiter or a quote
-        if re.search(r"(?<![=!<>])=(?!=) *[\(\[\{\"']", body):
-            return "fstring-delimiter-after-selfdoc-equals"
     return None
 
 
@@ -1164,7 +1159,9 @@ def streams(ctx):
     for t in ["'a\n'", "'''a''", "'a\\'", "'a", "'a'a", "''''", "'''''", "'a'\\\na", "'\\", "''\n'"]:
         corpus.append(f"strlex {hexs(t)}")
     for b in ["{", "}", "{}", "{y!}", "{y!z}", "{y!r", "{y=}", "{y:{r:{y}}}", "{\\}", "{y", "{{}", "{y!rr}", "{!r}",
-              "{y==r}", "{y=!r:}", "{:}", "\\{y}", "{y:\\}}", "\\"]:
+              "{y==r}", "{y=!r:}", "{:}", "\\{y}", "{y:\\}}", "\\",
+              # regression probes of the finding fixed by /repo d717a96 (a delimiter or quote after the `=`)
+              "{={}}", '{="a"}', "{y=()}", "{={}!r}", '{y=("a")}', "{y= []}", '{=""""""}']:
         corpus.append(f"fstr {hexs(b)}")
     for body in ["\\é", "a\\é", "\\x41é", "\\x41\\é", "\\7é", "\\0\\é", "é", "aé", "\\n\\é", "\\\\é", "\\é\\", "\\xé1", "\\x4é",
                  "\\N\\é", "\\u\\😀"]:
